@@ -1,0 +1,110 @@
+//go:build verif
+
+package router
+
+import (
+	"github.com/gammazero/nexus/v3/wamp"
+)
+
+// VerifSnapshot returns the sizes of the realm, broker and dealer tables of
+// the named realm, and the session IDs referenced by each table. Every table
+// is read inside the goroutine that owns it. It is read-only and exists only
+// in builds with the "verif" tag.
+func VerifSnapshot(rt Router, realmURI wamp.URI) (map[string]int, map[string][]wamp.ID, bool) {
+	r, ok := rt.(*router)
+	if !ok {
+		return nil, nil, false
+	}
+	var rlm *realm
+	sync := make(chan struct{})
+	r.actionChan <- func() {
+		rlm = r.realms[realmURI]
+		close(sync)
+	}
+	<-sync
+	if rlm == nil {
+		return nil, nil, false
+	}
+
+	sizes := map[string]int{}
+	refs := map[string][]wamp.ID{}
+
+	sync = make(chan struct{})
+	rlm.actionChan <- func() {
+		sizes["realm.clients"] = len(rlm.clients)
+		sizes["realm.testaments"] = len(rlm.testaments)
+		for id := range rlm.clients {
+			refs["realm.clients"] = append(refs["realm.clients"], id)
+		}
+		for id := range rlm.testaments {
+			refs["realm.testaments"] = append(refs["realm.testaments"], id)
+		}
+		close(sync)
+	}
+	<-sync
+
+	b := rlm.broker
+	sync = make(chan struct{})
+	b.actionChan <- func() {
+		sizes["broker.topicSubscription"] = len(b.topicSubscription)
+		sizes["broker.pfxTopicSubscription"] = len(b.pfxTopicSubscription)
+		sizes["broker.wcTopicSubscription"] = len(b.wcTopicSubscription)
+		sizes["broker.subscriptions"] = len(b.subscriptions)
+		sizes["broker.sessionSubIDSet"] = len(b.sessionSubIDSet)
+		sizes["broker.eventHistoryStore"] = len(b.eventHistoryStore)
+		var nsubscribers, nentries int
+		for _, sub := range b.subscriptions {
+			nsubscribers += len(sub.subscribers)
+			for s := range sub.subscribers {
+				refs["broker.subscribers"] = append(refs["broker.subscribers"], s.ID)
+			}
+		}
+		for s, set := range b.sessionSubIDSet {
+			nentries += len(set)
+			refs["broker.sessionSubIDSet"] = append(refs["broker.sessionSubIDSet"], s.ID)
+		}
+		sizes["broker.subscribers"] = nsubscribers
+		sizes["broker.sessionSubIDs"] = nentries
+		close(sync)
+	}
+	<-sync
+
+	d := rlm.dealer
+	sync = make(chan struct{})
+	d.actionChan <- func() {
+		sizes["dealer.procRegMap"] = len(d.procRegMap)
+		sizes["dealer.pfxProcRegMap"] = len(d.pfxProcRegMap)
+		sizes["dealer.wcProcRegMap"] = len(d.wcProcRegMap)
+		sizes["dealer.registrations"] = len(d.registrations)
+		sizes["dealer.calls"] = len(d.calls)
+		sizes["dealer.invocations"] = len(d.invocations)
+		sizes["dealer.invocationByCall"] = len(d.invocationByCall)
+		sizes["dealer.calleeRegIDSet"] = len(d.calleeRegIDSet)
+		var ncallees, nregids int
+		for _, reg := range d.registrations {
+			ncallees += len(reg.callees)
+			for _, c := range reg.callees {
+				refs["dealer.callees"] = append(refs["dealer.callees"], c.ID)
+			}
+		}
+		for s, set := range d.calleeRegIDSet {
+			nregids += len(set)
+			refs["dealer.calleeRegIDSet"] = append(refs["dealer.calleeRegIDSet"], s.ID)
+		}
+		sizes["dealer.callees"] = ncallees
+		sizes["dealer.calleeRegIDs"] = nregids
+		for id, s := range d.calls {
+			refs["dealer.calls"] = append(refs["dealer.calls"], id.session, s.ID)
+		}
+		for id, invk := range d.invocations {
+			refs["dealer.invocations"] = append(refs["dealer.invocations"], id.session, invk.callID.session, invk.callee.ID)
+		}
+		for id, iid := range d.invocationByCall {
+			refs["dealer.invocationByCall"] = append(refs["dealer.invocationByCall"], id.session, iid.session)
+		}
+		close(sync)
+	}
+	<-sync
+
+	return sizes, refs, true
+}
